@@ -66,6 +66,11 @@ pub struct Ctx {
     pub skipped: Option<&'static str>,
     /// extra sub-evaluations performed inside this case (e.g. offsets probed)
     pub sub_evals: u64,
+    /// signatures listed in KNOWN_FINDINGS.txt for this property (so a check that finds several
+    /// independent failures in one case can report an unlisted one first)
+    pub known: Arc<Vec<String>>,
+    /// replaying a known-finding repro: the signature that entry expects
+    pub expect: Option<String>,
 }
 
 impl Ctx {
@@ -79,7 +84,23 @@ impl Ctx {
             key: None,
             skipped: None,
             sub_evals: 0,
+            known: current_known(),
+            expect: EXPECT_SIG.get().cloned(),
         }
+    }
+    /// From several independent failures of one case pick the first whose signature is not a
+    /// listed known finding; if all are known, the first.
+    pub fn pick_failure(&self, mut fails: Vec<(String, String)>) -> Outcome {
+        if fails.is_empty() {
+            return Outcome::Pass;
+        }
+        let idx = fails
+            .iter()
+            .position(|(s, _)| !self.known.contains(s))
+            .or_else(|| self.expect.as_ref().and_then(|e| fails.iter().position(|(s, _)| s == e)))
+            .unwrap_or(0);
+        let (sig, detail) = fails.swap_remove(idx);
+        Outcome::Fail { sig, detail }
     }
     pub fn class(&mut self, c: impl Into<String>) {
         self.classes.push(c.into());
@@ -91,6 +112,21 @@ impl Ctx {
         self.skipped = Some(why);
         Outcome::Pass
     }
+}
+
+static EXPECT_SIG: std::sync::OnceLock<String> = std::sync::OnceLock::new();
+pub fn set_expect(sig: &str) {
+    let _ = EXPECT_SIG.set(sig.to_string());
+}
+static KNOWN_SIGS: std::sync::OnceLock<Arc<Vec<String>>> = std::sync::OnceLock::new();
+
+fn current_known() -> Arc<Vec<String>> {
+    KNOWN_SIGS.get().cloned().unwrap_or_else(|| Arc::new(vec![]))
+}
+
+/// Called once per process, before any case runs.
+pub fn set_known_for(prop: &str) {
+    let _ = KNOWN_SIGS.set(Arc::new(load_known(prop).into_iter().map(|k| k.sig).collect()));
 }
 
 pub type CheckFn = fn(&[u8], &mut Ctx) -> Outcome;
@@ -341,8 +377,15 @@ pub fn install_panic_hook() {
 pub fn normalise_panic(msg: &str, loc: &str) -> String {
     let mut s = String::new();
     let mut last_hash = false;
-    for c in msg.chars().take(160) {
-        if c.is_ascii_digit() {
+    let chars: Vec<char> = msg.chars().take(160).collect();
+    for (i, &c) in chars.iter().enumerate() {
+        let lone_digit = c.is_ascii_digit()
+            && !(i > 0 && chars[i - 1].is_ascii_digit())
+            && !chars.get(i + 1).map(|d| d.is_ascii_digit()).unwrap_or(false);
+        if lone_digit {
+            s.push(c);
+            last_hash = false;
+        } else if c.is_ascii_digit() {
             if !last_hash {
                 s.push('#');
                 last_hash = true;
@@ -567,6 +610,7 @@ struct WorkerAcc {
 /// Runs cases `start..end` of a stage in this process; prints one JSON object on stdout.
 pub fn worker_main(a: WorkerArgs) -> i32 {
     install_panic_hook();
+    set_known_for(a.prop.id);
     let known: Vec<String> = load_known(a.prop.id).into_iter().map(|k| k.sig).collect();
     let progress = Arc::new(AtomicU64::new(u64::MAX));
     let started = Arc::new(Mutex::new(Instant::now()));
@@ -648,6 +692,13 @@ pub fn worker_main(a: WorkerArgs) -> i32 {
                     }
                     Outcome::Fail { sig, detail } => {
                         if known.iter().any(|k| *k == sig) {
+                            if ctx.nontrivial {
+                                acc.keys.insert(ctx.key.unwrap_or_else(|| match (&ctx.sample, &bytes) {
+                                    (Some(s), _) => fnv(s.as_bytes()),
+                                    (None, Some(b)) => fnv(b),
+                                    (None, None) => index,
+                                }));
+                            }
                             let e = acc.known.entry(sig.clone()).or_insert((0, String::new()));
                             e.0 += 1;
                             if e.1.is_empty() {
@@ -888,7 +939,7 @@ pub fn run_property(prop: &'static Prop, tier: Tier, seed: u64, exe: &str) -> Ru
     let mut known_alive: Vec<&Known> = vec![];
     for k in &known {
         let path = format!("{}/{}", VERIF_ROOT, k.repro);
-        match replay_in_child(&cfg, &path) {
+        match replay_in_child(&cfg, &path, Some(&k.sig)) {
             ReplayResult::Fail(sig, _) if sig == k.sig => known_alive.push(k),
             ReplayResult::Fail(sig, detail) => {
                 // the repro now fails differently: that is a new violation
@@ -910,7 +961,7 @@ pub fn run_property(prop: &'static Prop, tier: Tier, seed: u64, exe: &str) -> Ru
         files.sort();
         for p in files {
             regressions += 1;
-            match replay_in_child(&cfg, p.to_str().unwrap()) {
+            match replay_in_child(&cfg, p.to_str().unwrap(), None) {
                 ReplayResult::Pass => {}
                 ReplayResult::Fail(sig, detail) => {
                     if known.iter().any(|k| k.sig == sig) { continue; }
@@ -1117,9 +1168,14 @@ pub enum ReplayResult {
     Error(String),
 }
 
-fn replay_in_child(cfg: &RunCfg, path: &str) -> ReplayResult {
-    let out = Command::new(&cfg.exe)
-        .arg("replay-raw")
+fn replay_in_child(cfg: &RunCfg, path: &str, expect: Option<&str>) -> ReplayResult {
+    let mut cmd = Command::new(&cfg.exe);
+    if let Some(e) = expect {
+        cmd.arg("replay-raw").arg("--expect").arg(e);
+    } else {
+        cmd.arg("replay-raw");
+    }
+    let out = cmd
         .arg("--prop").arg(cfg.prop)
         .arg("--tier").arg(cfg.tier.name())
         .arg("--file").arg(path)
@@ -1150,6 +1206,7 @@ fn replay_in_child(cfg: &RunCfg, path: &str) -> ReplayResult {
 /// a JSON verdict line. Used by the parent and by `check --replay`.
 pub fn replay_raw(prop: &'static Prop, tier: Tier, path: &str) -> (i32, Value) {
     install_panic_hook();
+    set_known_for(prop.id);
     let Ok(text) = std::fs::read_to_string(path) else {
         return (4, json!({"outcome": "error", "detail": format!("cannot read {}", path)}));
     };
